@@ -99,6 +99,15 @@ Theorem C13_stdin_meets_spec_text_mode :
      end) = true -> spec_in i (stdin_model i) = true.
 Proof. exact stdin_meets_spec_text. Qed.
 
+(** Findings witnessed on real processes only.  F-C13b (buffered text stream over an
+    open pipe strands characters), F-C13c (a BOM per read for BOM encodings), F-C13d
+    (a multi-byte key typed at a terminal is held back) and F-C12d (a watcher response
+    after the input's EOF hits the closed pipe) have NO [_refuted] theorem here: the
+    model has three BOM-less codecs, scripted streams whose reads never block, and
+    keeps responses apart from the stdin worker's writes.  They are attributed by the
+    real-child checks of harness/props/c13.py, each by its specific symptom, without
+    a model that agrees. *)
+
 (** Non-vacuity. *)
 Example C13_ex_text_run :       (* "h", e-acute, then the command finishes with "!" already available, then EOF *)
   let i := mkSin Utf8 (Some (MText, true)) None false
